@@ -129,8 +129,8 @@ def _cli(text, libset, work, ob, viols, keybase, tag):
     except TypeError:
         r = CliRunner().invoke(cli.main, ["eems-" + libset, path])
     for f in set(os.listdir(work)) - before:
-        os.remove(os.path.join(work, f))
-    os.remove(path)
+        snapshot.remove_path(os.path.join(work, f))
+    snapshot.remove_path(path)
     if r.exception is not None and not isinstance(r.exception, SystemExit):
         viols.append(V("C13:%s:cli-raw-exception:%s" % (keybase, type(r.exception).__name__), "CLI let %r escape for a model that fails with %s" % (r.exception, ob["cls"]), **tag))
         return "cli-raw"
